@@ -3,14 +3,14 @@
 from __future__ import annotations
 
 import json
-from typing import Any, Dict, List, Optional, Tuple
+from typing import Any, Callable, Dict, List, Optional, Tuple
 
 from ..core import worker as wk
 from ..core.framework import Ctx
 
 SPEC = {
     "modules": ["HC.Props.C14"],
-    "extracted": ["Guards", "LifespanSend"],
+    "extracted": ["Guards", "LifespanSend", "LifespanSites"],
     "technique": "Lean 4: executable model of both Lifespan classes and of worker_serve (one timed state machine; every worker / "
                  "CPython / code-path difference a Runtime field, re-measured on the code under test on every run); invariants proved "
                  "preserved by every operation and lifted to every operation list (HC.inv_runOps); `decide` examples and history "
@@ -38,7 +38,19 @@ SPEC = {
                   "connecting before/during/after start-up and holding a request across the trigger, real worker_serve on loopback; "
                   "model outcome compared and property monitors evaluated on every run; the failure messages are sent with and without their "
                   "optional `message` key, and the if/elif chain of asgi_send of both workers is regenerated from the source and proved to be the "
-                  "model's send alphabet (asgi_send_dispatch).",
+                  "model's send alphabet (asgi_send_dispatch).  What escapes the application is a TREE of exceptions (HC/Worker/Escape.lean: leaves = "
+                  "exceptions, inner nodes = exception groups, one per task group / nursery the application runs its lifespan in): the except "
+                  "chain of handle_lifespan of both workers is regenerated from the source (HC/Extracted/LifespanSites.lean: classes of the two "
+                  "clauses, how a group is searched) and proved to re-raise every tree that contains a LifespanFailureError leaf at any depth, next "
+                  "to anything (failure_leaf_aborts), to file a tree of other exceptions only under 'unsupported' (other_only_unsupported), to "
+                  "re-raise a cancellation inside groups (cancelled_leaf_reraised), and a script run inside any nest of groups is, for the server, "
+                  "the script itself (wrapped_script_is_script: every theorem about scripts is a theorem about wrapped scripts); a scan of the "
+                  "direct members only would miss depth 2 (direct_scan_misses_nested).  Tie: scripts whose failure / exception leaves through "
+                  "synthetic groups of depth 1..3, mixed with sibling exceptions, and through REAL nested asyncio.TaskGroups / trio nurseries, in the "
+                  "whole-worker grid; and handle_lifespan of both workers called directly on generated exception trees (deterministic corpus + "
+                  "random) against the model's verdict.  The per-connection state: `ConnectionState(self.state.copy())` in TCPServer.run of both "
+                  "workers is read off the source as an unconditional copy (conn_state_unconditional_copy); isolation scenarios run with a lifespan "
+                  "state that is EMPTY when connections are accepted as well as with a seeded one, with sequential and overlapping connections.",
     "level_note": "Trusted: Lean kernel; the hand-written worker model HC/Worker/{Lifespan,Run}.lean (tied by differential runs only); "
                   "the Runtime flags are measured by probes on the code and interpreter under test and must equal the Lean constants "
                   "Runtime.asyncio / Runtime.trio (a mismatch is reported as a disagreement); the trio lifespan task's two aclose() "
@@ -46,8 +58,10 @@ SPEC = {
                   "rounds); real-clock runs assert order exactly and instants with slack; the kernel accept queue (trio listens before "
                   "serving) is not 'accepting': the observation point is the first scope / response; the state copy is shallow "
                   "(top-level keys).",
-    "rule": "scenario = lifespan script x worker x client set (connect before / during / after start-up with a state probe each, one "
-            "request held across the trigger; thorough: each client phase alone, two await durations, beyond-grace holder); "
+    "rule": "scenario = lifespan script (bare, or leaving through exception groups) x worker x client set (connect before / during / after "
+            "start-up with a state probe each, one request held across the trigger; isolation scenarios: two more connections after start-up, "
+            "one of which writes while the other's request is in progress, with an empty and with a seeded lifespan state; thorough: each "
+            "client phase alone, two await durations, beyond-grace holder); unit: exception tree x worker; "
             "distinct = (script, worker, client phase); non-trivial = the script leaves the happy path or a client is refused / queued / "
             "held across the trigger",
     "trusted": ["asyncio / trio scheduling, socket and timer behaviour (measured, real clock)",
@@ -87,7 +101,55 @@ SCRIPTS: Dict[str, List[str]] = {
     "failed_nomsg": ["recv", "await", "startup_failed_nomsg"],
     "failed_nomsg_await_in_cleanup": ["recv", "await", "startup_failed_nomsg", "await"],
     "shutdown_failed_nomsg": ["recv", "await", "startup_complete", "recv", "shutdown_failed_nomsg"],
+    # the application runs its lifespan inside task groups / nurseries (anyio, Starlette): what it raises leaves it wrapped in
+    # exception groups, one per level, possibly next to other exceptions (ESCAPES: how).  The same clauses apply.
+    "failed_group1": ["recv", "await", "startup_failed"],
+    "failed_group2": ["recv", "await", "startup_failed"],
+    "failed_group3": ["recv", "await", "startup_failed"],
+    "failed_group2_mixed": ["recv", "await", "startup_failed"],
+    "failed_group3_mixed_await_in_cleanup": ["recv", "await", "startup_failed", "await"],
+    "failed_nomsg_group2": ["recv", "await", "startup_failed_nomsg"],
+    "failed_taskgroups2": ["recv", "await", "startup_failed"],
+    "failed_taskgroups3_await_in_cleanup": ["recv", "await", "startup_failed", "await"],
+    "raise_group2": ["recv", "await", "raise"],
+    "raise_group3_mixed": ["recv", "await", "raise"],
+    "raise_taskgroups2": ["recv", "await", "raise"],
+    "unknown_group2": ["recv", "await", "unknown"],
+    "shutdown_failed_group2": ["recv", "await", "startup_complete", "recv", "shutdown_failed"],
+    "shutdown_failed_taskgroups2": ["recv", "await", "startup_complete", "recv", "shutdown_failed"],
+    "shutdown_raise_group2": ["recv", "await", "startup_complete", "recv", "raise"],
+    "complete_taskgroups2": ["recv", "await", "startup_complete", "recv", "shutdown_complete", "return"],
+    "complete_then_hang_taskgroups2": ["recv", "await", "startup_complete", "recv", "shutdown_complete", "hang"],
 }
+
+# how the exception of a script leaves the application (worker.make_app `escape`): a template of nested exception groups built by
+# the harness ("own" = the script's exception, "sibling" = another exception next to it, a list = one group), or the script run
+# inside that many real nested asyncio.TaskGroups / trio nurseries
+ESCAPES: Dict[str, Any] = {
+    "failed_group1": ["own"],
+    "failed_group2": [["own"]],
+    "failed_group3": [[["own"]]],
+    "failed_group2_mixed": ["sibling", ["sibling", "own"]],
+    "failed_group3_mixed_await_in_cleanup": [["sibling"], [["own", "sibling"], "sibling"]],
+    "failed_nomsg_group2": [["own"]],
+    "failed_taskgroups2": {"taskgroups": 2},
+    "failed_taskgroups3_await_in_cleanup": {"taskgroups": 3},
+    "raise_group2": [["own"]],
+    "raise_group3_mixed": ["sibling", [["own"], "sibling"]],
+    "raise_taskgroups2": {"taskgroups": 2},
+    "unknown_group2": [["own"]],
+    "shutdown_failed_group2": [["own"]],
+    "shutdown_failed_taskgroups2": {"taskgroups": 2},
+    "shutdown_raise_group2": [["own"]],
+    "complete_taskgroups2": {"taskgroups": 2},
+    "complete_then_hang_taskgroups2": {"taskgroups": 2},
+}
+
+# scripts after which requests are served, used for the state-isolation scenarios (two more connections after start-up, one
+# writing while the other's request is in progress) - with a lifespan state that is EMPTY when connections are accepted (the
+# application stores nothing, or does not support lifespan) and with a seeded one
+ISOLATION: List[Tuple[str, bool]] = [("complete", False), ("complete", True), ("complete_late_state", False), ("raise_immediately", False),
+                                    ("return_immediately", False), ("raise_before_complete", False)]
 
 
 def script_facts(script: List[str]) -> dict:
@@ -142,7 +204,7 @@ def script_facts(script: List[str]) -> dict:
     return f
 
 
-def scenario(name: str, worker: str, phases: List[str], await_s: float = AWAIT, hold: str = "short") -> dict:
+def scenario(name: str, worker: str, phases: List[str], await_s: float = AWAIT, hold: str = "short", ls_writes: bool = True) -> dict:
     """Timing discipline (as C15): the scenario clock is anchored to the lifespan application's own first recorded event
     (`ls_start` = script time 0, `clock_anchor`), not to the wall clock of the process: what a client is meant to meet - the
     application still inside its start-up `await`, the listener, a request in progress - is then a matter of the script's and
@@ -171,6 +233,13 @@ def scenario(name: str, worker: str, phases: List[str], await_s: float = AWAIT, 
             # asyncio refuses what comes before it listens; trio's listening socket queues it for the time serving starts
             if serving_by_then or (listens and worker == "trio"):
                 expected[f"scope:/state/{cid}"] = 1
+    if "iso" in phases and listens:
+        # state isolation between connections that are both served: 4 writes, keeps its request open for 100 ms and reads its
+        # state again; 5 connects and writes in between
+        for cid, (dt, path) in ((4, (0.03, "/state/4/100")), (5, (0.06, "/state/5"))):
+            clients.append({"id": cid, "kind": "h1", "phase": "iso",
+                            "steps": [["at_counts", t_of["after"] + dt, {"listening": 1}], ["connect"], ["get", path], ["read", 1.5], ["wait_close", 3.0]]})
+            expected[f"scope:{path}"] = 1
     trigger = 2 * await_s + 0.35
     if "hold" in phases:
         path = "/d/300/3" if hold == "short" else "/hang/3"
@@ -186,6 +255,10 @@ def scenario(name: str, worker: str, phases: List[str], await_s: float = AWAIT, 
           "observe_until": trigger + T_GRACE + T_SHUT + SLACK + 0.3, "client_grace": 0.3}
     if expected:
         sc["trigger_after"] = expected
+    if name in ESCAPES:
+        sc["escape"] = ESCAPES[name]
+    if not ls_writes:
+        sc["ls_writes"] = False
     if name == "complete_late_state":
         sc["set_late_at"] = 2 * await_s
     return sc
@@ -196,6 +269,8 @@ def gen(ctx: Ctx) -> List[dict]:
     for worker in ("asyncio", "trio"):
         for name in SCRIPTS:
             out.append(scenario(name, worker, ["before", "during", "after", "hold"]))
+        for name, writes in ISOLATION:
+            out.append(scenario(name, worker, ["before", "during", "after", "iso", "hold"], ls_writes=writes))
     if ctx.thorough:
         for worker in ("asyncio", "trio"):
             for name in SCRIPTS:
@@ -204,6 +279,8 @@ def gen(ctx: Ctx) -> List[dict]:
                 for aw in (0.1, 0.25):
                     out.append(scenario(name, worker, ["before", "during", "after", "hold"], await_s=aw))
                 out.append(scenario(name, worker, ["after"]))
+                if script_facts(SCRIPTS[name])["leaves"] != "failure" or script_facts(SCRIPTS[name])["complete"]:
+                    out.append(scenario(name, worker, ["after", "iso", "hold"], ls_writes=False))
         # a handler that outlives the grace period: lifespan.shutdown only after trigger + graceful_timeout
         for worker in ("asyncio", "trio"):
             for name in ("complete", "return_after_complete", "raise_before_complete", "shutdown_failed"):
@@ -223,7 +300,7 @@ def signature(sc: dict, facts: dict, **kw: Any) -> dict:
     return {"worker": sc["worker"], "script": sc["name"], "shape": shape, **kw}
 
 
-def monitors(ctx: Ctx, sc: dict, obs: dict, iv: dict) -> None:
+def monitors(ctx: Any, sc: dict, obs: dict, iv: dict) -> None:      # ctx: Ctx or worker.Findings
     facts = script_facts(sc["lifespan"])
     ev = obs["events"]
     case = {"scenario": sc}
@@ -299,23 +376,25 @@ def monitors(ctx: Ctx, sc: dict, obs: dict, iv: dict) -> None:
     if iv["outcome"] == "stuck":
         viol("serve_returns_normally", {"serve": "did not return", "observed_until": sc["observe_until"]})
     # 7. state isolation
+    # (what the lifespan application stored under `boot`: "L", or nothing at all - the state the connections copy is then empty)
+    ls_boot = "L" if sc.get("ls_writes", True) else None
     probes = [e[3] for e in ev if e[2] == "state_probe"]
     for p in probes:
-        foreign = {k: v for k, v in p["before"].items() if k == "who" or (k == "boot" and v != "L")}
+        foreign = {k: v for k, v in p["before"].items() if k == "who" or (k == "boot" and v != ls_boot)}
         own_ok = p["after"].get("who") == p["tag"] and p["after"].get("boot") == "C" + p["tag"]
-        if foreign or not own_ok or p["before"].get("boot") != "L":
-            viol("state_isolated", {"probe": p})
+        if foreign or not own_ok or p["before"].get("boot") != ls_boot:
+            viol("state_isolated", {"probe": p, "lifespan_wrote": ls_boot})
     for e in ev:
         if e[2] == "ls_recv" and e[3]["type"] == "lifespan.shutdown":
             st = e[3]["state"]
-            if st.get("boot") != "L" or "who" in st:
-                viol("state_isolated", {"lifespan_state_at_shutdown": st})
+            if st.get("boot") != ls_boot or "who" in st:
+                viol("state_isolated", {"lifespan_state_at_shutdown": st, "lifespan_wrote": ls_boot})
 
 
 # --------------------------------------------------------------------------------------------------------------
 # model vs implementation
 # --------------------------------------------------------------------------------------------------------------
-def compare(ctx: Ctx, sc: dict, iv: dict, m: dict) -> None:
+def compare(ctx: Any, sc: dict, iv: dict, m: dict) -> None:      # ctx: Ctx or worker.Findings
     mv = wk.model_view(m)
     diffs = []
     cls = {"LifespanFailureError": "LifespanFailureError", "LifespanTimeoutError": "LifespanTimeoutError",
@@ -387,8 +466,35 @@ def evaluate(ctx: Ctx, scs: List[dict], procs: int = 14) -> None:
         wk.check_runtime_constants(ctx, flags)
     obs = wk.run_disciplined(ctx, scs, procs)       # timing discipline: see worker.run_disciplined and `scenario`
     reqs = [wk.model_request(sc, "c14.run", flags) for sc in scs]
+    # a script whose exceptions leave the application through exception groups: the model (HC/Worker/Escape.lean `translate`, with the
+    # except chain the extractor read off this worker's handle_lifespan) says what script that is for the server
+    esc = [i for i, sc in enumerate(scs) if sc.get("escape") is not None]
+    if esc:
+        tr = ctx.model([{"cmd": "c14.escape_script", "worker": scs[i]["worker"], "wrap": wk.escape_wrap(scs[i]["escape"]),
+                         "script": reqs[i]["script"]} for i in esc])
+        for i, r in zip(esc, tr or []):
+            if "ok" not in r:
+                raise wk.HarnessFailure(f"hcdriver rejected the escape of {scs[i]['name']}/{scs[i]['worker']}: {r}")
+            reqs[i]["script"] = r["ok"]["script"]
+            ctx.count("escape", json.dumps(scs[i]["escape"]))
     model = ctx.model(reqs)
-    for i, (sc, o) in enumerate(zip(scs, obs)):
+
+    def judge(f: Any, i: int, sc: dict, o: dict) -> None:
+        """one run of one scenario: the property monitors and the model comparison, collected in `f`"""
+        iv = wk.impl_view(o)
+        monitors(f, sc, o, iv)
+        if model is not None:
+            r = model[i]
+            if "ok" not in r:
+                raise wk.HarnessFailure(f"hcdriver rejected scenario {sc['name']}/{sc['worker']}: {r}")
+            sc2 = dict(sc)
+            sc2["_obs_events"] = [e for e in o["events"] if e[2] == "state_probe"]
+            compare(f, sc2, iv, r["ok"])
+
+    # report rule (worker.judge_with_reruns): a scenario about which the monitors or the comparison say something is first run
+    # again alone; only what it says again is reported (with the re-run's observation), the rest is counted as not reproduced
+    obs = wk.judge_with_reruns(ctx, scs, obs, judge)
+    for sc, o in zip(scs, obs):
         iv = wk.impl_view(o)
         facts = script_facts(sc["lifespan"])
         ctx.evaluations += 1
@@ -402,22 +508,147 @@ def evaluate(ctx: Ctx, scs: List[dict], procs: int = 14) -> None:
             ctx.count("client_connect", f"{sc['worker']}:{c['phase']}:{ip.get('connect')}")
             nontrivial = facts["leaves"] != "return" or not facts["shutdown_complete"] or ip.get("connect") != "ok" or c["phase"] in ("before", "during", "hold")
             if nontrivial:
-                ctx.distinct([sc["name"], sc["worker"], c["phase"], sc.get("hold"), sc["await_s"]])
+                ctx.distinct([sc["name"], sc["worker"], c["phase"], sc.get("hold"), sc["await_s"], sc.get("ls_writes", True)])
         ctx.sample({"scenario": sc, "serve": o["serve"], "events": [e for e in o["events"] if e[2] != "log"][:40]}, cap=3)
-        monitors(ctx, sc, o, iv)
-        if model is not None:
-            r = model[i]
-            if "ok" not in r:
-                raise wk.HarnessFailure(f"hcdriver rejected scenario {sc['name']}/{sc['worker']}: {r}")
-            sc2 = dict(sc)
-            sc2["_obs_events"] = [e for e in o["events"] if e[2] == "state_probe"]
-            compare(ctx, sc2, iv, r["ok"])
+
+
+# --------------------------------------------------------------------------------------------------------------
+# unit level: handle_lifespan of both workers on a TREE of exceptions leaving the application
+# --------------------------------------------------------------------------------------------------------------
+LEAVES = ("failure:startup", "failure:shutdown", "cancelled", "other")
+# depth 1, 2, 3 of every kind of leaf, alone and next to other exceptions at every level
+TREE_CORPUS: List[Any] = (
+    list(LEAVES)
+    + [[x] for x in LEAVES] + [[[x]] for x in LEAVES] + [[[[x]]] for x in LEAVES]
+    + [["other", x] for x in LEAVES] + [["other", [x]] for x in LEAVES] + [[["other"], [[x], "other"]] for x in LEAVES]
+    + [["other", ["other", ["other", [x]]]] for x in LEAVES]
+    + [["failure:startup", "cancelled"], [["failure:startup"], ["cancelled"]], ["other", "other"], [["other"], ["other", ["other"]]],
+       [["failure:startup", "failure:shutdown"]], [["cancelled"], "other"], ["failure:shutdown", ["other", ["failure:startup"]]]])
+
+
+def gen_tree(rng, depth: int = 0) -> Any:
+    if depth >= 4 or rng.random() < (0.25 if depth else 0.05):
+        return rng.choice(LEAVES + ("other",))
+    return [gen_tree(rng, depth + 1) for _ in range(rng.choice([1, 1, 2, 3]))]
+
+
+def tree_leaves(t: Any, depth: int = 0) -> List[Tuple[str, int]]:
+    if isinstance(t, list):
+        return [x for c in t for x in tree_leaves(c, depth + 1)]
+    return [(t, depth)]
+
+
+def run_escape_unit(worker: str, trees: List[Any]) -> List[dict]:
+    """the real `Lifespan.handle_lifespan` of `worker` around an application that raises each tree; what comes out of it"""
+    from hypercorn.app_wrappers import ASGIWrapper
+    from hypercorn.config import Config
+    from hypercorn.utils import LifespanFailureError
+
+    def cfg() -> Any:
+        c = Config()
+        c.accesslog = None
+        c.errorlog = None
+        return c
+
+    def build(t: Any, cancelled: BaseException) -> BaseException:
+        if isinstance(t, list):
+            return BaseExceptionGroup("scripted group", [build(x, cancelled) for x in t])
+        if t.startswith("failure:"):
+            return LifespanFailureError(t.split(":")[1], "scripted")
+        return cancelled if t == "cancelled" else wk.ScriptedRaise("scripted")
+
+    def shape(e: BaseException, cancelled_cls: type) -> Any:
+        if isinstance(e, BaseExceptionGroup):
+            return [shape(x, cancelled_cls) for x in e.exceptions]
+        if isinstance(e, LifespanFailureError):
+            return "failure:" + ("startup" if "in startup" in str(e) else "shutdown")
+        return "cancelled" if isinstance(e, cancelled_cls) else ("other" if isinstance(e, wk.ScriptedRaise) else "?" + type(e).__name__)
+
+    async def one(make: Callable, t: Any, cancelled: BaseException) -> dict:
+        async def app(scope, receive, send) -> None:
+            raise build(t, cancelled)
+        lf = make(ASGIWrapper(app))
+        try:
+            await lf.handle_lifespan()
+        except BaseException as e:  # noqa
+            return {"verdict": "reraise", "tree": shape(e, type(cancelled)), "supported": lf.supported,
+                    "events_set": [lf.startup.is_set(), lf.shutdown.is_set()]}
+        return {"verdict": "unsupported" if not lf.supported else "returned", "supported": lf.supported,
+                "events_set": [lf.startup.is_set(), lf.shutdown.is_set()]}
+
+    if worker == "asyncio":
+        import asyncio
+
+        async def amain() -> List[dict]:
+            from hypercorn.asyncio.lifespan import Lifespan
+            loop = asyncio.get_event_loop()
+            return [await one(lambda a: Lifespan(a, cfg(), loop, {}), t, asyncio.CancelledError()) for t in trees]
+        return asyncio.run(amain())
+    import trio
+
+    async def tmain() -> List[dict]:
+        from hypercorn.trio.lifespan import Lifespan
+        caught: List[BaseException] = []
+        with trio.CancelScope() as cs:              # a genuine trio.Cancelled (the class has no public constructor)
+            cs.cancel()
+            try:
+                await trio.lowlevel.checkpoint()
+            except trio.Cancelled as c:
+                caught.append(c)
+        return [await one(lambda a: Lifespan(a, cfg(), {}), t, caught[0]) for t in trees]
+    return trio.run(tmain)
+
+
+def check_escape_unit(ctx: Ctx, cases: List[dict]) -> None:
+    for worker in ("asyncio", "trio"):
+        idx = [i for i, c in enumerate(cases) if c["worker"] == worker]
+        if not idx:
+            continue
+        obs = run_escape_unit(worker, [cases[i]["tree"] for i in idx])
+        model = ctx.model([{"cmd": "c14.escape", "worker": worker, "tree": cases[i]["tree"]} for i in idx])
+        for k, i in enumerate(idx):
+            c, o = cases[i], obs[k]
+            leaves = tree_leaves(c["tree"])
+            kinds = {x.split(":")[0] for x, _ in leaves}
+            fdepth = [d for x, d in leaves if x.startswith("failure")]
+            ctx.evaluations += 1
+            ctx.count("escape_unit.worker", worker)
+            ctx.count("escape_unit.leaves", "+".join(sorted(kinds)))
+            ctx.count("escape_unit.failure_depth", "none" if not fdepth else f"{min(fdepth)}..{max(fdepth)}")
+            ctx.count("escape_unit.verdict", o["verdict"])
+            if isinstance(c["tree"], list):
+                ctx.distinct(["escape_unit", worker, sorted(kinds), min(fdepth) if fdepth else None, max(d for _, d in leaves)])
+            ctx.sample(c, cap=2)
+            sig = {"family": "escape_unit", "worker": worker, "leaves": sorted(kinds)}
+            # the property: startup.failed (a LifespanFailureError anywhere in what leaves the application) aborts - it is raised on, as a
+            # failure, never filed under "does not support lifespan"; an application that (only) raised is unsupported
+            if fdepth:
+                out = [x for x, _ in tree_leaves(o.get("tree"))] if o["verdict"] == "reraise" else []
+                if o["verdict"] != "reraise" or not any(x.startswith("failure") for x in out) or not o["supported"]:
+                    ctx.violation("failed_aborts", c, o, dict(sig, failure_depth=min(fdepth)))
+            elif kinds == {"other"}:
+                if o["verdict"] != "unsupported":
+                    ctx.violation("unsupported_continues", c, o, sig)
+            if o["events_set"] != [True, True]:
+                ctx.violation("serve_returns_normally", c, {"events_not_set_when_the_task_ends": o}, sig)
+            if model is not None:
+                ctx.disagreements_checked += 1
+                m = model[k].get("ok")
+                impl = {"verdict": o["verdict"], **({"tree": o["tree"]} if o["verdict"] == "reraise" else {})}
+                if m != impl:
+                    ctx.disagree("c14.escape", c, model[k], impl)
+
+
+def gen_escape_unit(ctx: Ctx) -> List[dict]:
+    trees = list(TREE_CORPUS) + [gen_tree(ctx.rng) for _ in range(ctx.budget(300, 5000))]
+    return [{"family": "escape_unit", "worker": w, "tree": t} for w in ("asyncio", "trio") for t in trees]
 
 
 def run(ctx: Ctx) -> None:
+    check_escape_unit(ctx, gen_escape_unit(ctx))
     scs = gen(ctx)
     ctx.exhaustive = True
-    ctx.extra["grid"] = {"scripts": len(SCRIPTS), "workers": 2, "scenarios": len(scs)}
+    ctx.extra["grid"] = {"scripts": len(SCRIPTS), "workers": 2, "scenarios": len(scs), "exception_tree_corpus": len(TREE_CORPUS)}
     evaluate(ctx, scs)
     # the Lean negation witnesses, replayed on the implementation: they must fail there too (else model and code disagree)
     ctx.notes.append("history witnesses replayed on the implementation (all pass on the code now): f16_run_before_fix = "
@@ -426,6 +657,9 @@ def run(ctx: Ctx) -> None:
 
 
 def replay(ctx: Ctx, case: dict) -> None:
+    if case.get("family") == "escape_unit":
+        check_escape_unit(ctx, [case])
+        return
     sc = case["scenario"]
     sc = {k: v for k, v in sc.items() if k != "_obs_events"}
     evaluate(ctx, [sc], procs=1)
